@@ -20,3 +20,13 @@ package utils
 //@   loop 1:
 //@     invariant 0 <= iter
 //@     decreases len(handlers) - iter
+
+//@ func (evp *EventHandlerPool) Handle(e Event, handle EventHandlerFunc)
+//@   requires evp != nil
+//@   safety[C15]
+//@   modifies MAP
+//@   ensures[C15,C19] @registered evp.pool != nil && mhas(evp.pool, e) && len(mget(evp.pool, e)) == old(ite(mhas(evp.pool, e), len(mget(evp.pool, e)), 0)) + 1 && nth(mget(evp.pool, e), len(mget(evp.pool, e)) - 1) == handle
+
+//@ func (evp *EventHandlerPool) Clean()
+//@   requires evp != nil
+//@   modifies evp.pool, MAP
